@@ -65,6 +65,13 @@ def check(s):
         if training_scope(m):
             hits = module_level_state(P, m)
             s.ob("C11.1", m.name.replace("lerax.", "") + ":<module>", not hits, "no module-level container is mutated by a function", m.relpath, key="module-state", detail="; ".join(str(h) for h in hits))
+    # equality of static arguments keys the compilation caches: a class whose __eq__ ignores part of its state makes a later `learn`
+    # reuse the program compiled for another configuration (training then depends on what ran earlier in the process)
+    from ..effects import incomplete_equality
+    ie = incomplete_equality(P)
+    s.ob("C11.1", "custom __eq__", not ie, "every class that defines __eq__ (outside lerax.space, whose equalities C14.4 decides) compares all of its state", ie[0][1] + f":{ie[0][2]}" if ie else "",
+         key="incomplete-equality", detail="; ".join(f"{q} ignores {', '.join(ms)}" for q, _, _, ms in ie),
+         necessary_for="training is a function of (environment, initial policy, hyper-parameters, key) - not of what was compiled earlier in the process")
     ctrl = []
     for m, ci, qual, fn in functions_of(P, module_filter=lambda m: m.name in ("lerax.env.base_env", "lerax.callback.logging.callback", "lerax.compatibility.gymnax", "lerax.compatibility.gym")):
         if fn.name in ("render_states", "__init__", "get_obs", "reset", "step"):
@@ -223,10 +230,11 @@ def check(s):
              P.loc(dc.module, fn), key="returns-state-policy", detail=show(p.ret, maxlen=120))
     # ---------------------------------------------------------------- C11.5 host-side (Gymnasium) environments are re-seeded from the key at every reset
     check_gym_seeding(s)
+    check_video_observer(s)
     # ---------------------------------------------------------------- C11.6 no process-wide JAX configuration is changed (PRNG implementation, x64, ...)
     from .C12 import check_global_config
     check_global_config(s, "C11.6")
-    for r_, n_ in (("C11.1", 250), ("C11.2", 20), ("C11.3", 50), ("C11.4", 250), ("C11.5", 4), ("C11.6", 50)):
+    for r_, n_ in (("C11.1", 250), ("C11.2", 20), ("C11.3", 50), ("C11.4", 250), ("C11.5", 4), ("C11.6", 50), ("C11.8", 1)):
         s.floor(r_, n_)
 
 
@@ -240,6 +248,52 @@ def _seed_given(t):
             and isinstance(t[3], tuple) and t[3][0] == "param" and t[3][1].startswith("**"):
         return t[1] == "In"
     return None
+
+
+def check_video_observer(s):
+    """C11.8: the only observer that steps an environment itself is the video recorder of the logging callback (a rollout in a
+    background thread). Stepping is harmless for pure environments; an environment that lives on the host (the Gymnasium adapter) would
+    be reset and stepped under the learner's feet. Such environments have no renderer (their default_renderer raises), and the
+    recorder gives up before its rollout when it cannot obtain one: so the rollout must come AFTER the renderer was obtained."""
+    import ast as _ast
+    P = s.prog
+    m = P.modules.get("lerax.callback.logging.callback")
+    if m is None:
+        raise AnalysisError("lerax.callback.logging.callback vanished")
+    recs = [n for n in _ast.walk(m.tree) if isinstance(n, _ast.FunctionDef) and n.name == "_do_record"]
+    if len(recs) != 1:
+        raise AnalysisError("the video recorder's _do_record vanished")
+    fn = recs[0]
+
+    def calls(node, pred):
+        return any(isinstance(c, _ast.Call) and pred(c.func) for c in _ast.walk(node))
+
+    # functions (anywhere in the module) that obtain the renderer themselves count when called
+    obtains = {f.name for f in _ast.walk(m.tree) if isinstance(f, _ast.FunctionDef) and f is not fn
+               and calls(f, lambda c: isinstance(c, _ast.Attribute) and c.attr == "default_renderer")}
+
+    def is_guard(st):
+        return calls(st, lambda c: (isinstance(c, _ast.Attribute) and c.attr == "default_renderer") or (isinstance(c, _ast.Name) and c.id in obtains))
+
+    def is_rollout(st):
+        return calls(st, lambda c: isinstance(c, _ast.Name) and c.id == "run_rollout")
+
+    def linear(body):
+        out = []
+        for st in body:
+            if isinstance(st, _ast.Try) and not is_guard(st) or (isinstance(st, _ast.Try) and is_rollout(st)):
+                out += linear(st.body)
+            else:
+                out.append(st)
+        return out
+
+    seq = linear(fn.body)
+    gi = [i for i, st in enumerate(seq) if is_guard(st)]
+    ri = [i for i, st in enumerate(seq) if is_rollout(st)]
+    ok = bool(gi) and bool(ri) and min(ri) > min(gi) and not any(is_rollout(st) and is_guard(st) for st in seq)
+    s.ob("C11.8", "LoggingCallback video recorder", ok, "the recorder's own rollout runs only after a renderer was obtained for the environment (it gives up first for environments without one)",
+         P.loc(m, fn), key="video-rollout-after-renderer-guard", detail=f"renderer obtained at statement {gi}, rollout at statement {ri} of _do_record",
+         necessary_for="attaching observers (logging callback with video) does not change the trained policy, also for host-side Gymnasium environments")
 
 
 def check_gym_seeding(s):
